@@ -39,6 +39,10 @@ type Case struct {
 	AutoGC bool           `json:"autoGC,omitempty"`
 	Tags   []int          `json:"tags,omitempty"` // nodes that get a tag "t<i>" after the push phase (oci)
 	Tail   []TailOp       `json:"tail,omitempty"`
+	// Alias: the graph holds one digest under a manifest media type and as a plain blob
+	Alias bool `json:"alias,omitempty"`
+	// ForceCAS (file store)
+	ForceCAS bool `json:"forceCAS,omitempty"`
 }
 
 func genCase(store string) func(t *rapid.T) Case {
@@ -57,7 +61,13 @@ func genCase(store string) func(t *rapid.T) Case {
 		if store == "file" {
 			o.Titles = true
 		}
+		if store != "file" && rapid.IntRange(0, 5).Draw(t, "wideShape") == 0 {
+			return wideCase(t, store)
+		}
 		c := Case{Store: store, Specs: gen.Specs(t, o)}
+		if store == "file" {
+			c.ForceCAS = rapid.IntRange(0, 3).Draw(t, "forceCAS") == 0
+		}
 		d := gen.Build(c.Specs)
 		ids := d.CanonIDs()
 		// which nodes are pushed at all
@@ -79,9 +89,52 @@ func genCase(store string) func(t *rapid.T) Case {
 		if rapid.IntRange(0, 3).Draw(t, "concMode") == 0 {
 			c.Conc = rapid.IntRange(2, 4).Draw(t, "conc")
 		}
+		// a manifest that is also listed as a plain blob by another manifest: the
+		// same digest under a manifest media type and under application/octet-stream
+		var withKids []int
+		for _, id := range pushed {
+			if d.IsManifest(id) && len(d.Nodes[id].Edges) > 0 {
+				withKids = append(withKids, id)
+			}
+		}
+		if store != "file" && len(withKids) > 0 && rapid.IntRange(0, 4).Draw(t, "alias") == 0 {
+			x := rapid.SampledFrom(withKids).Draw(t, "aliasOf")
+			c.Specs = append(c.Specs, gen.NodeSpec{Kind: gen.KBlob, MT: "application/octet-stream", Alias: x + 1})
+			xa := len(c.Specs) - 1
+			c.Specs = append(c.Specs, gen.NodeSpec{Kind: gen.KArtifact, ArtifactType: "application/vnd.verif.alias", Layers: []gen.Ref{{N: xa}}})
+			r := len(c.Specs) - 1
+			// the alias is pushed after the manifest it doubles (pushed first, a
+			// digest-addressed store would refuse the manifest as already present and
+			// never learn that it is one), sequentially
+			// and a root above both spellings (one traversal meets the digest twice)
+			c.Specs = append(c.Specs, gen.NodeSpec{Kind: gen.KIndex, Layers: rapid.Permutation([]gen.Ref{{N: x}, {N: r}}).Draw(t, "rootOrder")})
+			top := len(c.Specs) - 1
+			c.Order = append(c.Order, xa)
+			pos := rapid.IntRange(0, len(c.Order)).Draw(t, "aliasParentPos")
+			c.Order = append(c.Order[:pos], append([]int{r}, c.Order[pos:]...)...)
+			pos = rapid.IntRange(0, len(c.Order)).Draw(t, "aliasRootPos")
+			c.Order = append(c.Order[:pos], append([]int{top}, c.Order[pos:]...)...)
+			c.Conc = 0
+			c.Alias = true
+			d = gen.Build(c.Specs)
+			ids = d.CanonIDs()
+			pushed = c.Order
+		}
 		if store == "oci" {
 			c.AutoGC = rapid.Bool().Draw(t, "autoGC")
 			for _, id := range pushed {
+				if c.Alias && id == len(c.Specs)-1 {
+					// the root above both spellings is tagged, so the doubled manifest
+					// stays rooted as a manifest through it (unrooted, GC would drop it
+					// as a manifest while its bytes live on as the blob)
+					c.Tags = append(c.Tags, id)
+					continue
+				}
+				if c.Specs[id].Alias > 0 {
+					// tagging the plain-blob alias would re-declare the manifest's
+					// digest entry as a blob: the caller's doing, not the store's
+					continue
+				}
 				if rapid.IntRange(0, 3).Draw(t, "tagged") == 0 {
 					c.Tags = append(c.Tags, id)
 				}
@@ -92,6 +145,11 @@ func genCase(store string) func(t *rapid.T) Case {
 				switch rapid.IntRange(0, 9).Draw(t, "tailOp") {
 				case 0, 1, 2, 3:
 					op = TailOp{Op: "delete", N: rapid.SampledFrom(ids).Draw(t, "delN")}
+					if c.Alias {
+						// deleting one alias of a digest in a digest-addressed layout
+						// removes the other's bytes: not a state the statement covers
+						op = TailOp{Op: "gc"}
+					}
 				case 4:
 					op = TailOp{Op: "gc"}
 				case 5:
@@ -108,6 +166,45 @@ func genCase(store string) func(t *rapid.T) Case {
 		}
 		return c
 	}
+}
+
+// wideCase: several wide manifests (8 or more distinct successors each) over one
+// pool of blobs that nothing references yet, all pushed at the same moment from as
+// many goroutines: concurrent index updates of the same fresh children.
+func wideCase(t *rapid.T, store string) Case {
+	c := Case{Store: store}
+	m := rapid.IntRange(8, 14).Draw(t, "poolSize")
+	for i := 0; i < m+1; i++ {
+		c.Specs = append(c.Specs, gen.NodeSpec{Kind: gen.KBlob, Seed: 400 + i, Size: 3 + i, MT: "application/octet-stream"})
+	}
+	cfg := m
+	p := rapid.IntRange(3, 8).Draw(t, "wideParents")
+	var parents []int
+	for i := 0; i < p; i++ {
+		w := rapid.IntRange(7, m).Draw(t, "width")
+		pool := rapid.Permutation(seq(m)).Draw(t, "layers")[:w]
+		var layers []gen.Ref
+		for _, b := range pool {
+			layers = append(layers, gen.Ref{N: b})
+		}
+		c.Specs = append(c.Specs, gen.NodeSpec{Kind: gen.KImage, Config: &gen.Ref{N: cfg}, Layers: layers})
+		parents = append(parents, len(c.Specs)-1)
+	}
+	if rapid.Bool().Draw(t, "childrenPushed") {
+		// the children exist already (pushed by the same goroutines, interleaved)
+		c.Order = append(c.Order, seq(m+1)...)
+	}
+	c.Order = append(c.Order, parents...)
+	c.Conc = p
+	return c
+}
+
+func seq(n int) []int {
+	out := make([]int, n)
+	for i := range out {
+		out[i] = i
+	}
+	return out
 }
 
 type predFinder = orc.PredFinder
@@ -144,6 +241,7 @@ func runCase(c Case) (res vt.Result, fail *vt.Fail) {
 			return res, vt.Failf("harness/file-new", "%v", err)
 		}
 		defer s.Close()
+		s.ForceCAS = c.ForceCAS
 		store = s
 	}
 
@@ -151,6 +249,10 @@ func runCase(c Case) (res vt.Result, fail *vt.Fail) {
 	m := &storedSet{Stored: map[int]bool{}}
 	push := func(id int) error {
 		err := gen.PushNode(ctx, store, d.Nodes[id])
+		if d.Nodes[id].Spec.Alias > 0 && errors.Is(err, errdef.ErrAlreadyExists) {
+			// a digest-addressed store already holds these bytes (as the manifest)
+			return nil
+		}
 		if c.Store == "file" && (errors.Is(err, errdef.ErrAlreadyExists) || errors.Is(err, file.ErrDuplicateName)) {
 			// the file store may already have materialised a named blob whose bytes
 			// it held under another name (documented duplicate restoration); the
@@ -168,10 +270,12 @@ func runCase(c Case) (res vt.Result, fail *vt.Fail) {
 	} else {
 		var wg sync.WaitGroup
 		errs := make([]error, c.Conc)
+		start := make(chan struct{})
 		for g := 0; g < c.Conc; g++ {
 			wg.Add(1)
 			go func(g int) {
 				defer wg.Done()
+				<-start
 				for i := g; i < len(c.Order); i += c.Conc {
 					if err := push(c.Order[i]); err != nil {
 						errs[g] = fmt.Errorf("push node %d: %w", c.Order[i], err)
@@ -180,6 +284,7 @@ func runCase(c Case) (res vt.Result, fail *vt.Fail) {
 				}
 			}(g)
 		}
+		close(start)
 		wg.Wait()
 		for _, err := range errs {
 			if err != nil {
